@@ -205,6 +205,25 @@ def check_accumulators(ctx, F, rule, fns):
                 ctx.ob(rule, inst, not bad, "an Err accumulator is handed on by every path of the folding closure" if not bad else
                        "the folding closure drops a failed accumulator (an earlier iteration's error is lost): returns %s" % bad[:2],
                        site=site, key=key)
+            elif d in ("std::iter::Iterator::flat_map", "std::iter::Iterator::filter_map") and len(args) == 2:
+                # Result is IntoIterator (and `.ok()` an Option): flattening the Results of a fallible closure drops every Err
+                g = ct.get(_arg_ty(args[1]))
+                gty = g["locals"][0]["ty"] if g is not None else ""
+                swallow = g is not None and (gty.startswith(RESULTISH) or (
+                    d.endswith("filter_map") and gty.startswith("std::option::Option<") and any(
+                        (mir.callee_decl(t2) or "").endswith("Result::<T, E>::ok") for _, t2 in mir.calls(g))))
+                if swallow:
+                    n += 1
+                    ctx.ob(rule, "%s :: %s" % (f["def"], d.split("::")[-1]), False,
+                           "%s over the Results of %s keeps the successes and silently drops every failure" % (d.split("::")[-1], g["def"]),
+                           site=site, key="%s|%s|%s" % (rule, d.split("::")[-1], f["def"]))
+            elif d == "std::iter::Iterator::flatten" and args:
+                recv = _arg_ty(args[0])
+                fall = [ct[m]["def"] for m in re.findall(r"\{closure@[^}]*\}", recv) if m in ct and ct[m]["locals"][0]["ty"].startswith(RESULTISH)]
+                if fall:
+                    n += 1
+                    ctx.ob(rule, "%s :: flatten" % f["def"], False, "flatten over the Results of %s drops every failure" % ", ".join(fall),
+                           site=site, key="%s|flatten|%s" % (rule, f["def"]))
             elif d in DISCARDING and args:
                 recv = _arg_ty(args[0])
                 fall = []
